@@ -63,6 +63,11 @@ FAMILIES = [
     ('sym_sym', BS + 'alpha↵' + BS + 'beta{}§', lambda h, P, k: sym('alpha') + sym('beta') + h[1]),
     ('sym_empty_group', BS + 'alpha{}¶§', lambda h, P, k: sym('alpha') + h[0] + h[1]),
     ('sym_in_group', '{' + BS + 'dag¶§}§', lambda h, P, k: grp(sym('dag') + ('' if P['mac'] else h[0]) + h[1], k) + h[2]),
+    ('sym_comment', BS + 'alpha↵%§\n§', lambda h, P, k: sym('alpha') + ('' if P['cmt'] else '\n') + h[2]),
+    ('sym_comment_math', '$' + BS + 'alpha¶%§\n§$', lambda h, P, k: sym('alpha') + ('' if eqpol(P)['cmt'] else '\n') + h[2]),
+    ('math_display_par', BS + '[§\n\n§' + BS + ']', lambda h, P, k: block(h[0] + '\n\n' + h[1])),
+    ('accent_symbol', '$' + BS + 'vec{' + BS + 'ell}§$', lambda h, P, k: sym('ell') + '\u20d7' + h[0]),
+    ('accent_bb', '$' + BS + 'bar{' + BS + 'mathbb{R}}$§', lambda h, P, k: '\u211d\u0305' + h[0]),
     ('sym_end', '§' + BS + 'ldots', lambda h, P, k: h[0] + sym('ldots')),
     ('constructs_ws', '{§}¶{§}', lambda h, P, k: h[0] + (h[1] if P['con'] else '') + h[2]),
     ('constructs_ws2', BS + 'textbf{§}¶' + BS + 'emph{§}', lambda h, P, k: h[0] + (h[1] if P['con'] else '') + h[2]),
